@@ -1,6 +1,8 @@
 package main
 
 import (
+	"regexp"
+	"strconv"
 	"io"
 	"bufio"
 	"fmt"
@@ -400,6 +402,7 @@ func propC05(o *out, r *rng, thorough bool) {
 	c05ReaderBoundaries(o, r)
 	c05EscapesAndRuns(o)
 	c05BufferSeams(o)
+	c05SameTokenElsewhere(o)
 	c05HistoryIndependence(o, r)
 	// walks over the token ring, on statements and on random token soups; every depth of pushback up to three
 	walks := 400
@@ -468,6 +471,47 @@ func c05BufferSeams(o *out) {
 			if fmt.Sprint(toks) != fmt.Sprint(want) || (total < n && !strings.Contains(form, "--")) {
 				o.fail("", fmt.Sprintf("a text of %d bytes (%s) scans as %v with %d bytes of literals, expected %v", len(text), strings.Replace(form, "%s", "...", 1), toks, total, want),
 					map[string]interface{}{"op": "megabyte", "text": form, "n": n})
+			}
+		}
+	}
+}
+
+// c05SameTokenElsewhere: the position in an error message is the position in THIS text: the same offending token
+// (an invalid regular expression, an unknown keyword, a bad string) moved right by k columns or down by k lines is
+// reported k columns to the right or k lines further down - whatever was parsed before
+var c05CharRe = regexp.MustCompile(`line (\d+), char (\d+)`)
+
+func c05SameTokenElsewhere(o *out) {
+	pos := func(text string) (int, int, bool) {
+		_, err := influxql.ParseStatement(text)
+		if err == nil {
+			return 0, 0, false
+		}
+		m := c05CharRe.FindStringSubmatch(err.Error())
+		if m == nil {
+			return 0, 0, false
+		}
+		l, _ := strconv.Atoi(m[1])
+		c, _ := strconv.Atoi(m[2])
+		return l, c, true
+	}
+	for _, form := range []string{"SELECT v FROM m WHERE h%s =~ /(/", "SELECT v%s FROM /[/", "SELECT v%s FRM m", "SELECT v FROM m WHERE x%s = 'open", "SELECT v FROM m WHERE f(a%s, /(?P</)", "DROP%s BLARGH x", "SELECT v FROM m GROUP BY%s /(/"} {
+		l0, c0, ok := pos(fmt.Sprintf(form, ""))
+		if !ok {
+			continue
+		}
+		for k := 1; k <= 6; k++ {
+			o.count("same-token-elsewhere")
+			o.checked()
+			l, c, ok := pos(fmt.Sprintf(form, strings.Repeat(" ", k)))
+			if !ok || l != l0 || c != c0+k {
+				o.fail("", fmt.Sprintf("%q: the offending token moved %d columns to the right and is reported at line %d, char %d (unmoved: line %d, char %d)", fmt.Sprintf(form, strings.Repeat(" ", k)), k, l, c, l0, c0),
+					map[string]interface{}{"op": "token_elsewhere", "text": form, "k": k})
+			}
+			l, c, ok = pos(strings.Repeat("\n", k) + fmt.Sprintf(form, ""))
+			if !ok || l != l0+k || c != c0 {
+				o.fail("", fmt.Sprintf("%q moved %d lines down is reported at line %d, char %d (unmoved: line %d, char %d)", fmt.Sprintf(form, ""), k, l, c, l0, c0),
+					map[string]interface{}{"op": "token_elsewhere", "text": form, "k": -k})
 			}
 		}
 	}
